@@ -1,13 +1,19 @@
 // C19 — simplex parametrisations always yield a probability vector and invert exactly
 // VF-VARIANT: san
-// VF-RULE: E2 product spaces, every index executed. (1) theta-lattice: method x zero-allowing flag x dimension x every theta vector of the lattice {1e-9,1/4,1/2,3/4,1-1e-9}^(n-1) (n<=7), and for 8<=n<=33 every vector that deviates from one of three base vectors (theta==1/2, theta==1/4, theta_i=1/(n-i)) in at most D coordinates to any lattice value; each is pushed through all three update entry points, copied (constructor, clone, assignment) and mutated, and fed back through both probability entry points. (2) probability vectors: every composition of 8 into n positive parts (/8, n<=8) and 12 constructed families with entries down to 1e-9 for every n in 1..33, through the constructor, the frequency setter on a fresh and on a used object, plain and ordered variant. (3) injectivity: per method and n<=7 the images of the whole theta lattice are sorted and scanned for duplicates. A case is non-trivial when n>=2.
-// VF-BOUND: theta in a 5-value lattice instead of (0,1); full lattice only for n<=7 (quick n<=6), beyond that at most D deviating coordinates (quick: D=2 for n<=9 and n in 15..17, D=1 otherwise; thorough: D=2 for every n<=33 and D=3 for n in {8,9,16}); probability vectors from dyadic compositions (n<=8) and 12 families per dimension instead of the whole simplex; all dimensions 1..33 are covered for the families and the deviation lattice
+// VF-RULE: E2 product spaces, every index executed. (1) theta-lattice: method x zero-allowing flag x dimension x every theta vector of the lattice {1e-9,1/4,1/2,3/4,1-1e-9}^(n-1) (n<=7), and for 8<=n<=33 every vector that deviates from one of three base vectors (theta==1/2, theta==1/4, theta_i=1/(n-i)) in at most D coordinates to any lattice value; each is pushed through all three update entry points, copied (constructor, clone, assignment) and mutated, and fed back through both probability entry points. (2) probability vectors: every composition of 8 into n positive parts (/8, n<=8) and 12 constructed families with entries down to 1e-9 for every n in 1..33, through the constructor, the frequency setter on a fresh and on a used object, plain and ordered variant. (3) injectivity: per method and n<=7 the images of the whole theta lattice are sorted and scanned for duplicates. (4) the two other users of the global-ratio coding that keep a copy of the vector next to the parameters: every operation history up to depth 4 (thorough 5) over 8 operations on a FullHmmTransitionMatrix (two caching readers, frequency setter with three matrices, two parameter update routes, copy; n=2,3) and over 9 operations on a MixtureOfDiscreteDistributions of constants (five parameter update routes incl. a zero theta, three namespaces, copy; n=2,3); after every operation the rows / weights the getters return are compared with the image of the parameters the object reports. A case is non-trivial when n>=2.
+// VF-BOUND: theta in a 5-value lattice instead of (0,1); full lattice only for n<=7 (quick n<=6), beyond that at most D deviating coordinates (quick: D=2 for n<=9 and n in 15..17, D=1 otherwise; thorough: D=2 for every n<=33 and D=3 for n in {8,9,16}); probability vectors from dyadic compositions (n<=8) and 12 families per dimension instead of the whole simplex; all dimensions 1..33 are covered for the families and the deviation lattice; the histories of (4) are bounded in depth (4 / 5), in dimension (2, 3) and in the values written (listed in the harness)
 // VF-LEVEL: bounded-exhaustive check on the real classes: every listed method x dimension x lattice vector is executed; tolerances are forward-error bounds of the documented formulas evaluated in double, derived next to their use; nothing sampled
 // VF-ASSUME: IEEE double arithmetic with round-to-nearest;; the parameters of a simplex are stored as doubles, so a probability vector is 'returned unchanged to rounding' when it is within the forward error of rounding the parameters (this scales with p_i/p_(i+1) for the local-ratio method);; behaviour between lattice points is not observed
 // VF-TECHNIQUE: exhaustive enumeration of parameter / probability lattices on the real code; normalisation, round trip in both directions, path independence, copy independence, duplicate scan for injectivity
 // VF-BUDGET_QUICK: 150
 #include "vf.hpp"
 #include <Bpp/Numeric/Prob/Simplex.h>
+#include <Bpp/Numeric/Prob/MixtureOfDiscreteDistributions.h>
+#include <Bpp/Numeric/Prob/ConstantDistribution.h>
+#include <Bpp/Numeric/Hmm/FullHmmTransitionMatrix.h>
+#include <Bpp/Numeric/Hmm/HmmStateAlphabet.h>
+#include <Bpp/Numeric/AbstractParametrizable.h>
+#include <Bpp/Numeric/Matrix/Matrix.h>
 #include <Bpp/App/ApplicationTools.h>
 #include <Bpp/Io/OutputStream.h>
 #include <cmath>
@@ -327,6 +333,139 @@ static void orderedCase(int m, bool allowNull, const Vd& p, const std::string& w
   } catch (bpp::Exception& e) { c.fail(std::string("ordered|exception|") + MN[m], ctx + ": " + line1(e.what())); }
 }
 
+// ---- users of the global-ratio coding in the other two anchor files: operation histories ---------------------------------
+// Both classes keep a copy of the probability vector(s) next to the parameters (cached matrix / weight vector), so what is judged is
+// the statement's own clause on every state of a short history: what the getter returns is the image of the parameters the object
+// reports, and rows handed to the frequency setter come back unchanged (to rounding).
+struct HSt : Clonable { HSt* clone() const override { return new HSt(*this); } };
+class HAl : public virtual HmmStateAlphabet, public AbstractParametrizable {
+  std::vector<HSt> st_;
+public:
+  HAl(size_t n) : AbstractParametrizable(""), st_(n) {}
+  HAl* clone() const override { return new HAl(*this); }
+  const Clonable& getState(size_t i) const override { return st_[i]; }
+  size_t getNumberOfStates() const override { return st_.size(); }
+  bool worksWith(const HmmStateAlphabet& a) const override { return a.getNumberOfStates() == st_.size(); }
+};
+static Vd stick(const Vd& th) {   // w_i = theta_i prod_{j<i}(1-theta_j), last = remainder; long double, rounded once
+  std::vector<long double> w; long double x = 1; for (double t : th) { w.push_back((long double)t * x); x *= 1 - (long double)t; } w.push_back(x);
+  Vd r; for (auto v : w) r.push_back((double)v); return r;
+}
+// rows used by the frequency setter (n = 2, 3); all entries positive
+static Vd hrow(int n, int which, int i) {
+  static const double R2[3][2][2] = {{{0.7, 0.3}, {0.2, 0.8}}, {{0.5, 0.5}, {0.5, 0.5}}, {{1e-6, 1 - 1e-6}, {0.25, 0.75}}};
+  static const double R3[3][3][3] = {{{0.7, 0.2, 0.1}, {0.1, 0.8, 0.1}, {0.3, 0.3, 0.4}}, {{0.25, 0.25, 0.5}, {0.25, 0.25, 0.5}, {0.25, 0.25, 0.5}}, {{0.98, 0.01, 0.01}, {1e-6, 0.5, 0.5 - 1e-6}, {0.125, 0.75, 0.125}}};
+  Vd r; for (int j = 0; j < n; ++j) r.push_back(n == 2 ? R2[which][i][j] : R3[which][i][j]); return r;
+}
+static const int HOPS = 8;
+static const char* HOPN[HOPS] = {"getPij", "getEquilibriumFrequencies", "set(A)", "set(B)", "set(C)", "setParameterValue(1.theta1=0.25)", "matchParametersValues(row2 thetas=0.6)", "copy"};
+static void hmmHistory(int n, const std::vector<int>& ops, vf::Case& c) {
+  std::string ctx = "FullHmmTransitionMatrix n=" + str(n) + " history:";
+  try {
+    auto al = std::make_shared<HAl>((size_t)n);
+    std::unique_ptr<FullHmmTransitionMatrix> T(new FullHmmTransitionMatrix(al, ""));
+    std::vector<Vd> th(n, Vd());            // model: the thetas the object should report, row by row
+    for (int i = 0; i < n; ++i) for (int j = 0; j + 1 < n; ++j) th[i].push_back(1.0 / (n - j));
+    std::vector<Vd> given(n);               // rows last handed to the setter and not yet overridden by a parameter update
+    for (int op : ops) {
+      ctx += std::string(" ") + HOPN[op];
+      bool readP = false, readE = false;
+      switch (op) {
+        case 0: readP = true; break;
+        case 1: readE = true; break;
+        case 2: case 3: case 4: {
+          RowMatrix<double> M(n, n);
+          for (int i = 0; i < n; ++i) { Vd r = hrow(n, op - 2, i); given[i] = r; for (int j = 0; j < n; ++j) M(i, j) = r[j];
+            double y = 1; for (int j = 0; j + 1 < n; ++j) { th[i][j] = r[j] / y; y -= r[j]; } }
+          c.site("FullHmmTransitionMatrix::setTransitionProbabilities"); T->setTransitionProbabilities(M);
+          break; }
+        case 5: c.site("FullHmmTransitionMatrix::setParameterValue"); T->setParameterValue("1.theta1", 0.25); th[0][0] = 0.25; given[0].clear(); break;
+        case 6: { ParameterList pl; for (int j = 0; j + 1 < n; ++j) { pl.addParameter(Parameter("2.theta" + str(j + 1), 0.6)); th[1][j] = 0.6; } given[1].clear();
+          c.site("FullHmmTransitionMatrix::matchParametersValues"); T->matchParametersValues(pl); break; }
+        case 7: c.site("FullHmmTransitionMatrix::clone"); T.reset(T->clone()); break;
+      }
+      // state audit: parameters, then the entry reader, then (for the two caching readers) the cached objects
+      c.site("FullHmmTransitionMatrix::Pij");
+      for (int i = 0; i < n; ++i) {
+        for (int j = 0; j + 1 < n; ++j) {
+          double got = T->getParameterValue(str(i + 1) + ".theta" + str(j + 1));
+          if (!(std::fabs(got - th[i][j]) <= tolTheta(1, n, 1e-6))) { c.fail("hmm-rows|parameter-differs-from-what-was-set", ctx + ": " + str(i + 1) + ".theta" + str(j + 1) + "=" + num(got) + " expected " + num(th[i][j])); return; }
+        }
+        Vd want = given[i].empty() ? stick(th[i]) : given[i];
+        Vd tol = tolP(1, want);
+        Vd viaEntry; for (int j = 0; j < n; ++j) viaEntry.push_back(T->Pij(i, j));
+        if (!auditProb(viaEntry, n, c, "hmm-rows|Pij", ctx + " row " + str(i + 1))) return;
+        for (int j = 0; j < n; ++j) if (!(std::fabs(viaEntry[j] - want[j]) <= tol[j])) { c.fail("hmm-rows|Pij-differs-from-the-row-the-parameters-define", ctx + ": row " + str(i + 1) + " = " + vstr(viaEntry) + " expected " + vstr(want)); return; }
+        if (readP) {
+          c.site("FullHmmTransitionMatrix::getPij");
+          const Matrix<double>& P = T->getPij();
+          Vd viaM; for (int j = 0; j < n; ++j) viaM.push_back(P(i, j));
+          for (int j = 0; j < n; ++j) if (!(std::fabs(viaM[j] - want[j]) <= tol[j])) { c.fail("hmm-rows|getPij-differs-from-the-row-the-parameters-define", ctx + ": row " + str(i + 1) + " = " + vstr(viaM) + " expected " + vstr(want) + " (Pij(i,j) gives " + vstr(viaEntry) + ")"); return; }
+        }
+      }
+      if (readE) {
+        c.site("FullHmmTransitionMatrix::getEquilibriumFrequencies");
+        Vd pi = T->getEquilibriumFrequencies();
+        if (!auditProb(pi, n, c, "hmm-rows|equilibrium", ctx)) return;
+        // stationarity against the rows the parameters define: |pi P - pi|_inf <= 1e-12 (the vector comes from a matrix power; contraction
+        // of a positive matrix makes the residual far smaller than this unless the vector belongs to other rows)
+        for (int j = 0; j < n; ++j) { long double s = 0; for (int i = 0; i < n; ++i) s += (long double)pi[i] * T->Pij(i, j);
+          if (!(fabsl(s - pi[j]) <= 1e-12L)) { c.fail("hmm-rows|equilibrium-not-stationary-for-the-current-rows", ctx + ": pi=" + vstr(pi) + " (pi P - pi)[" + str(j) + "]=" + num((double)(s - pi[j]))); return; } }
+      }
+    }
+    c.nontrivial(); c.tag("hmm-rows-history");
+  } catch (bpp::Exception& e) { c.fail("hmm-rows|exception", ctx + ": " + line1(e.what())); }
+}
+
+static const int MOPS = 9;
+static const char* MOPN[MOPS] = {"setParameterValue(theta1=0.25)", "setParameterValue(theta1=0.6)", "matchParametersValues(all thetas=0.75)", "setParametersValues(last theta=0)", "setAllParametersValues(thetas=1/2)", "setNamespace(A.)", "setNamespace()", "setNamespace(Mixture.)", "copy"};
+static void mixHistory(int n, const std::vector<int>& ops, vf::Case& c) {
+  std::string ctx = "MixtureOfDiscreteDistributions of " + str(n) + " constants, history:";
+  try {
+    std::vector<std::unique_ptr<DiscreteDistributionInterface>> comp; Vd w0;
+    for (int i = 0; i < n; ++i) { comp.push_back(std::unique_ptr<DiscreteDistributionInterface>(new ConstantDistribution(1.0 + i))); }
+    if (n == 2) w0 = {0.3, 0.7}; else w0 = {0.2, 0.3, 0.5};
+    c.site("MixtureOfDiscreteDistributions::MixtureOfDiscreteDistributions");
+    std::unique_ptr<MixtureOfDiscreteDistributions> M(new MixtureOfDiscreteDistributions(comp, w0));
+    Vd th; { double y = 1; for (int i = 0; i + 1 < n; ++i) { th.push_back(w0[i] / y); y -= w0[i]; } }
+    Vd given = w0; std::string ns = "Mixture.";
+    auto audit = [&]() -> bool {
+      c.site("MixtureOfDiscreteDistributions::getNProbability");
+      for (int i = 0; i + 1 < n; ++i) { double got = M->getParameterValue("theta" + str(i + 1));
+        if (!(std::fabs(got - th[i]) <= 64 * EPS)) { c.fail("mixture-weights|parameter-differs-from-what-was-set", ctx + ": theta" + str(i + 1) + "=" + num(got) + " expected " + num(th[i])); return false; }
+        if (!M->getParameters().hasParameter(ns + "theta" + str(i + 1))) { c.fail("mixture-weights|parameter-not-under-the-current-namespace", ctx + ": no parameter " + ns + "theta" + str(i + 1)); return false; } }
+      Vd want = given.empty() ? stick(th) : given, got;
+      for (int i = 0; i < n; ++i) got.push_back(M->getNProbability(i));
+      if (!auditProb(got, n, c, "mixture-weights|weights", ctx)) return false;
+      for (int i = 0; i < n; ++i) if (!(std::fabs(got[i] - want[i]) <= 16 * n * EPS)) { c.fail("mixture-weights|weights-differ-from-the-image-of-the-parameters", ctx + ": weights " + vstr(got) + " expected " + vstr(want) + " for thetas " + vstr(th)); return false; }
+      // the components are the constants 1..n, so category i carries exactly weight i
+      c.site("MixtureOfDiscreteDistributions::getProbabilities");
+      Vd cat = M->getCategories(), pr = M->getProbabilities();
+      if (cat.size() != (size_t)n || pr.size() != (size_t)n) { c.fail("mixture-weights|category-count", ctx + ": " + str(cat.size()) + " categories"); return false; }
+      for (int i = 0; i < n; ++i) if (cat[i] != 1.0 + i || !(std::fabs(pr[i] - want[i]) <= 16 * n * EPS)) { c.fail("mixture-weights|category-probabilities-differ-from-the-weights", ctx + ": categories " + vstr(cat) + " probabilities " + vstr(pr) + " expected weights " + vstr(want)); return false; }
+      return true;
+    };
+    if (!audit()) return;
+    for (int op : ops) {
+      ctx += std::string(" ") + MOPN[op];
+      switch (op) {
+        case 0: case 1: { double v = op == 0 ? 0.25 : 0.6; c.site("MixtureOfDiscreteDistributions::setParameterValue"); M->setParameterValue("theta1", v); th[0] = v; given.clear(); break; }
+        case 2: { ParameterList pl; for (int i = 0; i + 1 < n; ++i) { pl.addParameter(Parameter(ns + "theta" + str(i + 1), 0.75)); th[i] = 0.75; } given.clear();
+          c.site("MixtureOfDiscreteDistributions::matchParametersValues"); M->matchParametersValues(pl); break; }
+        case 3: { ParameterList pl; pl.addParameter(Parameter(ns + "theta" + str(n - 1), 0.0)); th[n - 2] = 0.0; given.clear();
+          c.site("MixtureOfDiscreteDistributions::setParametersValues"); M->setParametersValues(pl); break; }
+        case 4: { ParameterList pl = M->getParameters(); for (size_t k = 0; k < pl.size(); ++k) if (pl[k].getName().find("theta") != std::string::npos) pl[k].setValue(0.5);
+          for (auto& t : th) t = 0.5; given.clear();
+          c.site("MixtureOfDiscreteDistributions::setAllParametersValues"); M->setAllParametersValues(pl); break; }
+        case 5: case 6: case 7: { ns = op == 5 ? "A." : op == 6 ? "" : "Mixture."; c.site("MixtureOfDiscreteDistributions::setNamespace"); M->setNamespace(ns); break; }
+        case 8: c.site("MixtureOfDiscreteDistributions::clone"); M.reset(M->clone()); break;
+      }
+      if (!audit()) return;
+    }
+    c.nontrivial(); c.tag("mixture-weights-history");
+  } catch (bpp::Exception& e) { c.fail("mixture-weights|exception", ctx + ": " + line1(e.what())); }
+}
+
 int main(int argc, char** argv) {
   static auto nul = std::make_shared<NullOutputStream>();
   ApplicationTools::message = nul; ApplicationTools::warning = nul; ApplicationTools::error = nul;
@@ -399,6 +538,15 @@ int main(int argc, char** argv) {
     } catch (bpp::Exception& e) { c.fail(std::string("simplex|exception|") + MN[m], ctx + ": " + line1(e.what())); }
   }, 120.0);
 
+  // (4) histories on the two classes that keep a copy of the vector next to the global-ratio parameters
+  {
+    int HD = th ? 5 : 4, MD = th ? 5 : 4;
+    uint64_t hc = 0, mc = 0; { uint64_t p = 1; for (int d = 0; d <= HD; ++d) { hc += p; p *= HOPS; } p = 1; for (int d = 0; d <= MD; ++d) { mc += p; p *= MOPS; } }
+    auto decode = [](uint64_t k, int base) { std::vector<int> ops; uint64_t p = 1; int d = 0; while (k >= p) { k -= p; p *= base; ++d; } for (int i = 0; i < d; ++i) { ops.push_back((int)(k % base)); k /= base; } return ops; };
+    R.space("hmm-rows:histories<=" + str(HD) + ":ops" + str(HOPS) + ":n2..3", hc * 2, [=](uint64_t idx, vf::Case& c) { hmmHistory(2 + (int)(idx % 2), decode(idx / 2, HOPS), c); if (idx % 997 == 5) c.sample("hmm rows history #" + str(idx)); }, 10.0);
+    R.space("mixture-weights:histories<=" + str(MD) + ":ops" + str(MOPS) + ":n2..3", mc * 2, [=](uint64_t idx, vf::Case& c) { mixHistory(2 + (int)(idx % 2), decode(idx / 2, MOPS), c); if (idx % 997 == 5) c.sample("mixture weights history #" + str(idx)); }, 10.0);
+  }
+  R.expectSeen("hmm-rows-history"); R.expectSeen("mixture-weights-history");
   R.expectSeen("global-ratio-theta"); R.expectSeen("local-ratio-theta"); R.expectSeen("binary-theta");
   R.expectSeen("global-ratio-prob"); R.expectSeen("local-ratio-prob"); R.expectSeen("binary-prob");
   R.expectSeen("ordered-global-ratio"); R.expectSeen("ordered-local-ratio"); R.expectSeen("ordered-binary");
